@@ -10,7 +10,9 @@ Implementation under test (real code from REPO/src, nothing re-implemented):
   * PythonTask(func, args, kwargs), rp.pythontask(f)(...), PythonTask.get_func_attr
     with dill/pickle really executed, and the decoded function really called; for stateful
     callables in sequences with state changes between decoration, task creations and decoding,
-    the reference result being taken when the task is created.
+    the reference result being taken when the task is created; the args list and kwargs dict are
+    ONE object each, refilled for every encoding and spoiled before decoding.
+  * sequences of descriptions in one process (state carried across calls): see _run_dseq.
 """
 import copy
 import functools
@@ -407,7 +409,7 @@ class C19(Prop):
     translators = ['descr']
     header = 'From RP Require Import Descr.Types Descr.Model Descr.Oracle Gen.Descr Gen.PDescr.'
     clauses = ['idempotent', 'alias_preserved', 'mode_enforced', 'untouched_preserved', 'dict_roundtrip',
-               'twin_same', 'slots_preserved', 'envelope_roundtrip']
+               'twin_same', 'slots_preserved', 'envelope_roundtrip', 'sequence_independent']
     corr_name = ('Descr.Model(construct/as_dict/verify over Gen.Descr.td_table, pd_verify over pd_table; '
                  'slots_to_new/slots_to_old/slot_ctor; transport) vs TaskDescription/PilotDescription/ru.TypedDict, convert_slots_to_new/_old/Slot, PythonTask')
     rule = ('corpus; for every alias block a family of descriptions giving the deprecated name alone (several values, '
@@ -635,6 +637,64 @@ class C19(Prop):
             kw = {k: rng.choice(pool) for k in rng.sample(['p', 'q', 'comm', 'n'], rng.randint(0, 3))}
         return {'kind': 'env', 'func': f, 'via': rng.choice(['class', 'class', 'decor']), 'args': args, 'kwargs': kw}
 
+    # list / dict valued attributes a user mutates in place, with a sample element
+    SEQ_FIELDS = {
+        'td': [('arguments', None), ('pre_exec', None), ('post_exec', None), ('pre_launch', None),
+               ('input_staging', None), ('output_staging', None), ('services', None), ('args', None),
+               ('environment', 'K'), ('tags', 'colocate'), ('metadata', 'm'), ('kwargs', 'k')],
+        'pd': [('app_comm', None), ('input_staging', None), ('output_staging', None), ('prepare_env', 'env')],
+    }
+
+    def _seq_input(self, rng, cls, with_keys):
+        if cls == 'td':
+            d = {'executable': rng.choice(['/bin/true', 'a', 'x y'])}
+            if rng.random() < 0.5:
+                src, dst, conv, rf = rng.choice(table()['aliases'])
+                t = table()['schema'][src][1]
+                d[src] = {'TInt': rng.choice([2, 4]), 'TStr': 'W'}.get(t, 'W')
+            if rng.random() < 0.3:
+                d['ranks'] = rng.choice([1, 2, 8])
+        else:
+            d = {'resource': 'local.localhost'}
+            d[rng.choice(['cores', 'nodes'])] = rng.choice([1, 4])
+        for k, dk in with_keys:
+            d[k] = {dk: 'v0'} if dk else ['e0']
+        return d
+
+    def _dseq_case(self, rng, cls=None, template=None):
+        """2-3 descriptions of one class built, mutated, verified and transported one after the other in
+        ONE process.  Slot 0 is the one that gets mutated; slot 1 is another description; slot 2 is a fresh
+        one built from the same input as slot 0."""
+        cls = cls or rng.choice(['td', 'td', 'pd'])
+        fields = self.SEQ_FIELDS[cls]
+        template = template or rng.choice(['default_before', 'after_verify', 'own_before', 'foreign', 'mixed'])
+        k, dk = rng.choice(fields)
+        e = rng.choice(['LEAK', 'x y', 'z'])
+        given = template in ('own_before',) or (template in ('after_verify', 'foreign', 'mixed') and rng.random() < 0.5)
+        x0 = self._seq_input(rng, cls, [(k, dk)] if given else [])
+        x1 = self._seq_input(rng, cls, [(k, dk)] if rng.random() < 0.3 else [])
+        app = ['append', 0, k, dk or '', e]
+        ops = [['construct', 0, x0]]
+        if template == 'default_before':        # the attribute still holds the class default object
+            ops += [app, ['verify', 0]]
+        elif template == 'own_before':          # the attribute holds the list given to the constructor
+            ops += [app, ['verify', 0]]
+        elif template == 'after_verify':
+            ops += [['verify', 0], app]
+        elif template == 'foreign':
+            ops += [['verify', 0], ['mut_input', 0, k, dk or '', e], ['mut_asdict', 0, k, dk or '', e]]
+        else:
+            k2, dk2 = rng.choice(fields)
+            ops += [['verify', 0], app, ['mut_asdict', 0, k2, dk2 or '', 'q'], ['append', 0, k2, dk2 or '', 'r'],
+                    ['mut_input', 0, k, dk or '', e]]
+        ops += [['construct', 1, x1], ['verify', 1]]
+        if rng.random() < 0.5:
+            ops += [['mut_asdict', 1, k, dk or '', e]]
+        ops += [['construct', 2, copy.deepcopy(x0)], ['verify', 2]]
+        if rng.random() < 0.3:
+            ops += [['append', 1, k, dk or '', 'late']]
+        return {'kind': 'dseq', 'cls': cls, 'template': template, 'ops': ops}
+
     def _envseq_case(self, rng, name=None, via=None, nsteps=None):
         pool = [0, 1, 2, -3, 'a', 'x y', None, True, 2.5]
         n = nsteps or rng.randint(1, 3)
@@ -692,6 +752,12 @@ class C19(Prop):
                    'args': [rng.choice(pool) for _ in range(rng.randint(0, 3))],
                    'kwargs': None if rng.random() < 0.3 else
                    {k: rng.choice(pool) for k in rng.sample(['p', 'q', 'n'], rng.randint(0, 2))}}
+        # descriptions in sequence: every template for both classes, then random ones
+        for cls in ('td', 'pd'):
+            for tpl in ('default_before', 'after_verify', 'own_before', 'foreign', 'mixed'):
+                yield self._dseq_case(rng, cls, tpl)
+        for _ in range(50 if tier == 'quick' else 2000):
+            yield self._dseq_case(rng)
         # every stateful callable through both construction paths: one task after a state change,
         # and several tasks in sequence with the state changing in between
         for name in sorted(STATEFUL):
@@ -733,6 +799,54 @@ class C19(Prop):
     # ------------------------------------------------------------------ impl
     def impl_setup(self):
         self.rp = rp_import()
+        # pristine class-level defaults: a sequence case that pollutes them must not spill into the
+        # cases that happen to run after it in the same child process
+        self._pristine = {c: copy.deepcopy(dict(c._defaults))
+                          for c in (self.rp.TaskDescription, self.rp.PilotDescription)}
+
+    def _reset_defaults(self):
+        for c, d in self._pristine.items():
+            c._defaults.clear()
+            c._defaults.update(copy.deepcopy(d))
+
+    def _run_dseq(self, case):
+        """All operations in this one process, in order; at the end the _data of every description."""
+        C = self.rp.TaskDescription if case['cls'] == 'td' else self.rp.PilotDescription
+        self._reset_defaults()
+        objs, inputs, errs = {}, {}, []
+
+        def mutate(container, k, dk, e):
+            v = container[k]
+            if isinstance(v, list):
+                v.append(e)
+            elif isinstance(v, dict):
+                v[dk] = e
+            else:
+                raise RuntimeError('attribute %s holds %r' % (k, v))
+        try:
+            for op in case['ops']:
+                if op[0] == 'construct':
+                    inputs[op[1]] = copy.deepcopy(op[2])
+                    objs[op[1]] = C(from_dict=inputs[op[1]])
+                elif op[0] == 'verify':
+                    try:
+                        objs[op[1]].verify()
+                    except Exception as e:
+                        errs.append([op[1], exc_name(e)])
+                elif op[0] == 'append':
+                    mutate(objs[op[1]], op[2], op[3], op[4])
+                elif op[0] == 'mut_input':
+                    if op[2] in inputs[op[1]]:
+                        mutate(inputs[op[1]], op[2], op[3], op[4])
+                    else:
+                        inputs[op[1]][op[2]] = [op[4]]
+                elif op[0] == 'mut_asdict':
+                    mutate(objs[op[1]].as_dict(), op[2], op[3], op[4])
+                else:
+                    raise RuntimeError(op[0])
+            return {'final': [[i, tag_descr(o._data)] for i, o in sorted(objs.items())], 'errs': errs}
+        finally:
+            self._reset_defaults()
 
     def _run_td(self, case):
         TD = self.rp.TaskDescription if case['kind'] == 'td' else self.rp.PilotDescription
@@ -838,29 +952,57 @@ class C19(Prop):
                 'gpus': self._tag_res(s['gpus']), 'lfs': s['lfs'], 'mem': s['mem'], 'nidx': s['node_index'],
                 'nname': s['node_name']}
 
-    def _run_slots(self, case):
+    def _slot_op(self, op, cur):
         from radical.pilot.resource_config import Slot
         import radical.pilot.utils as rpu
-        cur = [self._mk_slot(s) for s in case['slots']]
-        stages = []
+        import radical.utils as ru
+        if op == 'new':
+            return rpu.convert_slots_to_new(cur)
+        if op == 'old':
+            return rpu.convert_slots_to_old(cur)
+        if op == 'ctor':
+            # the plain dict itself is handed to the constructor (no defensive copy)
+            return [Slot(from_dict=s if type(s) is dict else s.as_dict()) for s in cur]
+        if op == 'asdict':
+            return [ru.as_dict(s) for s in cur]
+        raise RuntimeError(op)
+
+    @staticmethod
+    def _passthrough(op, tagged):
+        """the conversions hand a slot through untouched when there is nothing to convert"""
+        v = tagged['version']
+        return (op == 'new' and v is not None and v >= 1) or (op == 'old' and not v)
+
+    def _run_slots(self, case):
+        inp = [self._mk_slot(s) for s in case['slots']]
+        cur = inp
+        stages, objs = [], []
         for op in case['ops']:
             try:
-                if op == 'new':
-                    cur = rpu.convert_slots_to_new(cur)
-                elif op == 'old':
-                    cur = rpu.convert_slots_to_old(cur)
-                elif op == 'ctor':
-                    cur = [Slot(from_dict=copy.deepcopy(dict(s)) if type(s) is dict else s.as_dict()) for s in cur]
-                elif op == 'asdict':
-                    import radical.utils as ru
-                    cur = [ru.as_dict(s) for s in cur]
-                else:
-                    raise RuntimeError(op)
+                cur = self._slot_op(op, cur)
             except Exception as e:
                 stages.append({'exc': exc_name(e)})
                 break
+            objs.append(cur)
             stages.append([self._tag_slot(s) for s in cur])
-        return {'stages': stages}
+        # state carried across calls: mutate every converted output, then look at the input again
+        # and apply the first conversion to it a second time
+        for k, out in enumerate(objs):
+            src = case['slots'] if k == 0 else stages[k - 1]
+            for j, o in enumerate(out):
+                if self._passthrough(case['ops'][k], src[j]):
+                    continue
+                o['node_name'] = o['node_name'] + '!'
+                for r in ('cores', 'gpus'):
+                    if isinstance(o[r], list) and o[r]:
+                        o[r].append(copy.copy(o[r][0]))
+        obs = {'stages': stages, 'input_after': [self._tag_slot(s) for s in inp]}
+        try:
+            again = [self._tag_slot(s) for s in self._slot_op(case['ops'][0], inp)]
+        except Exception as e:
+            again = {'exc': exc_name(e)}
+        obs['rerun_same'] = (again == stages[0])
+        return obs
 
     def _run_env(self, case):
         rp = self.rp
@@ -902,20 +1044,26 @@ class C19(Prop):
         setst(case['s0'])
         dec = rp.pythontask(f) if case['via'] == 'decor' else None
         made = []
+        shared_args, shared_kw = [], {}        # ONE list and ONE dict object, refilled for every encoding
         for st in case['steps']:
             setst(st['state'])
+            shared_args[:] = st['args']
+            shared_kw.clear()
+            shared_kw.update(st['kwargs'] or {})
             args, kw = tuple(st['args']), st['kwargs']
             want = f(*args, **(kw or {}))
             if want[0] != st['state']:
                 raise RuntimeError('stateful callable %s does not report its state' % case['func'])
             try:
                 if dec is not None:
-                    w = dec(*args, **(kw or {}))
+                    w = dec(*shared_args, **shared_kw)
                 else:
-                    w = rp.PythonTask(f, args, copy.deepcopy(kw)) if kw is not None else rp.PythonTask(f, args)
+                    w = rp.PythonTask(f, shared_args, shared_kw) if kw is not None else rp.PythonTask(f, shared_args)
                 made.append((w, want))
             except Exception as e:
                 made.append((e, want))
+        shared_args.append('POISON')           # ... and spoiled before anything is decoded
+        shared_kw['POISON'] = 1
         setst(POISON)
         out = []
         for w, want in made:
@@ -983,6 +1131,46 @@ class C19(Prop):
         return obs
 
     def run_impl(self, case):
+        """Cases that mutate objects in place or exercise class-level state run in a forked copy of
+        this (never polluted) process: what a case observes then depends on that case alone, so a
+        replay reproduces in isolation and shrinking cannot feed on the leftovers of other cases."""
+        if case['kind'] in ('td', 'pd'):
+            return self._run_case(case)
+        import json as _json
+        r, w = os.pipe()
+        pid = os.fork()
+        if pid == 0:
+            try:
+                os.close(r)
+                try:
+                    out = {'ok': self._run_case(case)}
+                except BaseException as e:      # noqa
+                    out = {'err': '%s: %s' % (type(e).__name__, e)}
+                data = _json.dumps(out).encode()
+                while data:
+                    n = os.write(w, data)
+                    data = data[n:]
+            finally:
+                os._exit(0)
+        os.close(w)
+        chunks = []
+        while True:
+            b = os.read(r, 1 << 16)
+            if not b:
+                break
+            chunks.append(b)
+        os.close(r)
+        os.waitpid(pid, 0)
+        if not chunks:
+            raise RuntimeError('forked case runner died')
+        out = _json.loads(b''.join(chunks).decode())
+        if 'err' in out:
+            raise RuntimeError(out['err'])
+        return out['ok']
+
+    def _run_case(self, case):
+        if case['kind'] == 'dseq':
+            return self._run_dseq(case)
         if case['kind'] == 'envk':
             return self._run_envk(case)
         if case['kind'] == 'envseq':
@@ -1054,8 +1242,15 @@ class C19(Prop):
                     st.append('(inl %s)' % errname(s['exc']))
                 else:
                     st.append('(inr %s)' % L.lst([self._coq_slot(x) for x in s]))
-            return '(c19_slots_row %s %s %s)' % (L.lst([self.OPS[o] for o in case['ops']]),
-                                                 L.lst([self._coq_slot(s) for s in case['slots']]), L.lst(st))
+            return '(c19_slots_row %s %s %s %s %s)' % (
+                L.lst([self.OPS[o] for o in case['ops']]), L.lst([self._coq_slot(s) for s in case['slots']]),
+                L.lst(st), L.lst([self._coq_slot(s) for s in obs['input_after']]), L.boolean(obs['rerun_same']))
+        if case['kind'] == 'dseq':
+            if obs['errs']:
+                raise RuntimeError('verify raised in a sequence of valid descriptions: %s' % obs['errs'])
+            fin = L.lst([L.pair(L.nat(i), coq_descr(d)) for i, d in obs['final']])
+            return '(c19_dseq_row %s %s_table %s %s)' % (L.boolean(case['cls'] == 'pd'), case['cls'],
+                                                        self._coq_dops(case), fin)
         if case['kind'] == 'envk':
             kw = None if case['kwargs'] is None else [[k, tag_atom(v)] for k, v in case['kwargs'].items()]
             if case['via'] == 'decor' and kw is None:
@@ -1082,6 +1277,20 @@ class C19(Prop):
                                         L.boolean(obs['same'] and obs['callable']))
         return '(c19_env_row %s %s %s %s)' % (L.boolean(callable_), args, self._coq_kw(kw), o)
 
+    def _coq_dops(self, case):
+        out = []
+        for op in case['ops']:
+            if op[0] == 'construct':
+                out.append('(DConstruct %s %s)' % (L.nat(op[1]), coq_descr(tag_descr(op[2]))))
+            elif op[0] == 'verify':
+                out.append('(DVerify %s)' % L.nat(op[1]))
+            elif op[0] == 'append':
+                out.append('(DAppend %s %s %s %s)' % (L.nat(op[1]), L.string(op[2]), L.string(op[3]),
+                                                      coq_atom(tag_atom(op[4]))))
+            else:
+                out.append('(DForeign %s)' % L.nat(op[1]))
+        return L.lst(out)
+
     def _coq_steps(self, case):
         out = []
         for st in case['steps']:
@@ -1101,6 +1310,10 @@ class C19(Prop):
         return L.lst(out)
 
     def model_show(self, case):
+        if case['kind'] == 'dseq':
+            T = case['cls'] + '_table'
+            vf = 'verify' if case['cls'] == 'td' else 'pd_verify'
+            return 'drun (construct %s) (%s %s) %s []' % (T, vf, T, self._coq_dops(case))
         if case['kind'] == 'envk':
             return ('(serialize_id true true, serialize_id false true, serialize_id false false) '
                     '(* serialize_obj for (by value ok, by reference ok) = (T,T), (F,T), (F,F); the measured pair is '
@@ -1131,6 +1344,8 @@ class C19(Prop):
 
     # ------------------------------------------------------------------ meta
     def nontrivial(self, case, obs):
+        if case['kind'] == 'dseq':
+            return True
         if case['kind'] == 'envk':
             return True
         if case['kind'] == 'envseq':
@@ -1142,6 +1357,20 @@ class C19(Prop):
         return callable(FUNCS[case['func']])
 
     def signature(self, case, obs, clause):
+        if case['kind'] == 'dseq':
+            # the one leak recorded for the unchanged tree: an attribute that still holds the CLASS default
+            # object is mutated in place before verify() replaced it
+            name = 'TaskDescription' if case['cls'] == 'td' else 'PilotDescription'
+            given, verified = {}, set()
+            for op in case['ops']:
+                if op[0] == 'construct':
+                    given[op[1]] = set(op[2])
+                    verified.discard(op[1])
+                elif op[0] == 'verify':
+                    verified.add(op[1])
+                elif op[0] == 'append' and op[1] not in verified and op[2] not in given.get(op[1], ()):
+                    return '%s:%s:class-default-mutated-before-verify' % (clause, name)
+            return '%s:%s:state-carried-across-descriptions' % (clause, name)
         if case['kind'] == 'envk':
             how = 'by-value' if obs['val_ok'] else 'by-reference-only' if obs['ref_ok'] else \
                   'pickle-only' if obs['pk_ok'] else 'unpicklable'
@@ -1186,6 +1415,16 @@ class C19(Prop):
                     diff = [k for k, x in a if k not in srcs and bd.get(k) != x] or ['deprecated-name-still-set']
                 return '%s:TaskDescription._verify:%s' % (clause, '+'.join(diff[:3]))
             return '%s:TaskDescription.verify' % clause
+        if case['kind'] == 'slots' and clause == 'sequence_independent':
+            op0 = case['ops'][0]
+            kinds = sorted({x[r][0] for x in case['slots'] for r in ('cores', 'gpus') if x[r][1]})
+            plain = any(not x['typed'] for x in case['slots'])
+            what = 'input-mutated' if obs['input_after'] != case['slots'] else 'second-application-differs'
+            if op0 == 'ctor' and plain:
+                return '%s:Slot.__init__:input-dict-mutated-or-shared' % clause
+            if op0 == 'new' and 'ros' in kinds and plain:
+                return '%s:convert_slots_to_new:ros:output-shares-input-list' % clause
+            return '%s:convert_slots:%s:%s:%s' % (clause, op0, '+'.join(kinds) or 'empty', what)
         if case['kind'] == 'slots':
             stages = obs['stages']
             i = len(stages) - 1
@@ -1218,6 +1457,45 @@ class C19(Prop):
         return [i for i, _ in data]
 
     def shrink(self, case):
+        if case['kind'] == 'dseq':
+            ops = case['ops']
+
+            def valid(seq):
+                # the dict given to a constructor is only touched after verify() of that description:
+                # before, the description shares its lists with it (the model says so, too)
+                verified = set()
+                for o in seq:
+                    if o[0] == 'construct':
+                        verified.discard(o[1])
+                    elif o[0] == 'verify':
+                        verified.add(o[1])
+                    elif o[0] == 'mut_input' and o[1] not in verified:
+                        return False
+                return True
+
+            def leaky(seq):
+                # in-place mutations of an attribute that still holds the class default (the recorded
+                # finding): shrinking must not turn another failure into that one
+                n, given, verified = 0, {}, set()
+                for o in seq:
+                    if o[0] == 'construct':
+                        given[o[1]] = set(o[2])
+                        verified.discard(o[1])
+                    elif o[0] == 'verify':
+                        verified.add(o[1])
+                    elif o[0] == 'append' and o[1] not in verified and o[2] not in given.get(o[1], ()):
+                        n += 1
+                return n
+            for i, op in enumerate(ops):
+                if op[0] in ('append', 'mut_input', 'mut_asdict', 'verify'):
+                    cand = ops[:i] + ops[i + 1:]
+                    if valid(cand) and leaky(cand) <= leaky(ops):
+                        yield dict(case, ops=cand)
+            for slot in (1, 2):
+                rest = [o for o in ops if o[1] != slot]
+                if len(rest) < len(ops) and any(o[0] == 'construct' and o[1] != 0 for o in rest):
+                    yield dict(case, ops=rest)
+            return
         if case['kind'] == 'envk':
             if case['args']:
                 yield dict(case, args=case['args'][:-1])
@@ -1270,7 +1548,10 @@ class C19(Prop):
             c = r['case']
             kinds[c['kind']] = kinds.get(c['kind'], 0) + 1
             o = r['obs'] or {}
-            if c['kind'] == 'envk':
+            if c['kind'] == 'dseq':
+                k = 'dseq:%s:%s' % (c['cls'], c.get('template'))
+                ops[k] = ops.get(k, 0) + 1
+            elif c['kind'] == 'envk':
                 how = 'by-value' if o.get('val_ok') else 'by-reference-only' if o.get('ref_ok') else 'none'
                 k = 'envk:%s:%s' % (how, 'encoded' if 'exc' not in o.get('tr', {}) else o['tr']['exc'])
                 excs[k] = excs.get(k, 0) + 1
